@@ -33,7 +33,7 @@ ITER_SCOPE = scope_prefix("instruction::reduce::", "<instruction::reduce::", "in
 STDLIB_SCOPE = scope_prefix("stdlib::", "<stdlib::", "variable::try_from::", "<variable::Variable as std::convert::From<std::io")
 
 prop("C01",
-     [guard.run, guard.run_mustcall, misc.run_fnexit, misc.run_looptype, misc.run_slicetype, misc.run_celltype, queryguard.run, round11.run_queryimpl, fold.run, scope.run, round3.run_meetuse, round4.run_meetoperand, round3.run_assigntyping, round3.run_cellmember, lock.run_global, lock.run, round4.run_fnlocal, variance.run, round10.run_retkind, round11.run_parsescope, round11.run_matchdir, round11.run_unionall],
+     [guard.run, guard.run_mustcall, misc.run_fnexit, misc.run_looptype, misc.run_slicetype, misc.run_celltype, queryguard.run, round11.run_queryimpl, fold.run, scope.run, round3.run_meetuse, round4.run_meetoperand, round3.run_assigntyping, round3.run_cellmember, lock.run_global, lock.run, round4.run_fnlocal, variance.run, round10.run_retkind, round11.run_parsescope, round11.run_matchdir, round11.run_unionall, round11.run_seedfold],
      "R-QUERYIMPL: the admissibility predicate of `+` `@` `\\` `$]` implies every Type query the result type unwraps (symbolic boolean paths). R-PARSESCOPE: a top-level statement is folded against the scope as it was before it. R-MEETOPERAND: conjoin answers with no constant but `!`. R-LOCK (a cell read without its lock, or through a second lock, lets a checked value change under the reader). R-VARIANCE: every assignability test of the checker goes through Type::matches, whose direction clauses and mandatory conjuncts are part of soundness. R-FNLOCAL: the scope entry of a function literal carries its result type. Also R-GLOBAL: no cache of parse results outlives the scope they were checked against. Also: Type::conjoin (a mere lower bound) is used only for parameter types (R-MEETUSE); `X=` is typed with the typing functions of X (R-ASSIGNTYPING). Decides the structural half of type soundness: all 43 static checks the soundness argument leans on exist, are tested "
      "before every success value of their creation function and cannot be bypassed (R-GUARD, R-MUSTCALL); falling off a function "
      "body yields () and MissingReturn stands in front of that for non-() functions (R-FNEXIT); the Type queries that compute "
@@ -55,7 +55,7 @@ prop("C02",
      "a frozen table turns every NEW panic-capable site into an alarm by design")
 
 prop("C03",
-     [pairflowrule.run, tables.run_dispatch, tables.run_precedence, partial(panic.run, name="R-PANIC"), guard.run_mustcall, queryguard.run, round11.run_queryimpl, fold.run, errflow.run, parsepure.run, variant.run, round3.run_childkeep, round10.run_retkind],
+     [pairflowrule.run, tables.run_dispatch, tables.run_precedence, partial(panic.run, name="R-PANIC"), guard.run_mustcall, queryguard.run, round11.run_queryimpl, fold.run, errflow.run, parsepure.run, variant.run, round3.run_childkeep, round10.run_retkind, round11.run_seedfold],
      "R-QUERYIMPL: on every path on which an operator's admissibility predicate answers true, each Type query its result type unwraps was seen to be Some (operands not swapped). R-RETKIND (an operator typed with a constant type whose kernel can build another kind: the folded value fails a downcast while parsing). R-CHILDKEEP (a statement or declaration filtered out of a module / block while it is created is still referred to by what stays: the folding pass then looks up a name that was never declared). Decides: every alternative the grammar can hand to a pair-walking function has an arm there (R-TABLES-D: primary, line/stm/"
      "body, type, match_arm, int, var_from_str) and every operator rule is registered in the Pratt parser (R-TABLES); every "
      "panic-capable site on the parse path is a reviewed row (R-PANIC); Type queries are guarded by their admissibility test "
@@ -78,7 +78,7 @@ prop("C04",
      "kernel reuse is a sufficient mechanism, not a necessary one; And/Or folds are re-implementations (reviewed)")
 
 prop("C05",
-     [hashorder.run_hash, hashorder.run_order, hashorder.run_nondet, fold.run, lock.run_global, round4.run_instrstate, round4.run_concat, round6.run_noabsorb, round10.run_renderkey],
+     [hashorder.run_hash, hashorder.run_order, hashorder.run_nondet, fold.run, lock.run_global, round4.run_instrstate, round4.run_concat, round6.run_noabsorb, round10.run_renderkey, round11.run_seedfold],
      "R-RENDERKEY: the text of a value is never used as a key or compared. R-NOABSORB. R-CONCAT (absorption by subtyping makes the member set depend on arrival order). Also R-GLOBAL / R-INSTRSTATE: nothing is left behind by an earlier parse or run. Decides: no Hash impl of a crate type observes hash iteration order (R-HASH); every iteration over a HashMap / HashSet / "
      "MultiType ends in an order-insensitive consumer, a commutative fold, a display-only context or a reviewed row "
      "(R-HASHORDER, def-use from each iteration start to its terminal consumers); no clock / env / thread / RandomState call "
